@@ -82,7 +82,9 @@ def bounds(tier):
 
 
 def tasks(tier, seed):
-    return [{"fn": "layout", "kwargs": {"layout": [list(s) for s in lay]}, "label": f"layout={_lab(lay)}"} for lay in _layouts(tier)]
+    out = [{"fn": "layout", "kwargs": {"layout": [list(s) for s in lay]}, "label": f"layout={_lab(lay)}"} for lay in _layouts(tier)]
+    out.append({"fn": "best_individuals", "kwargs": {}, "label": "report/best_individuals"})
+    return out
 
 
 def REQUIRED_REACH(tier):
@@ -208,9 +210,80 @@ def layout(layout):
         vx.prove(f"C10/update/caller_unchanged/{lab}", vx.all_of([proc.get(KEY_A) == 1.0, proc.get(KEY_B) == 2.0, list(proc.get(KEY_V)) == [0.0] * 3]))
 
 
+class _RPop:
+    def __init__(self, f, x):
+        self.f, self.x = np.array(f, dtype=float).reshape(-1, 1), np.array(x, dtype=float)
+
+    def get_f(self):
+        return self.f
+
+    def get_x(self):
+        return self.x
+
+
+class _RIsland:
+    def __init__(self, pop):
+        self.pop = pop
+
+    def get_population(self):
+        return self.pop
+
+
+def _report_best(order, n_best):
+    """Real get_best_individuals (real xarray) on a stub archipelago: two islands of three individuals whose fitness ranks are the
+    permutation `order` (second island: reversed); scalar linear, scalar logarithmic and a logarithmic vector parameter."""
+    import itertools
+
+    from pyxel.calibration.archipelago_datatree import ArchipelagoDataTree
+    from pyxel.calibration.fitting_datatree import ModelFittingDataTree
+    from pyxel.observation import ParameterValues
+
+    prob = ModelFittingDataTree.__new__(ModelFittingDataTree)
+    prob._variables = [ParameterValues(key=KEY_A, values="_", boundaries=(0.0, 10.0)), ParameterValues(key=KEY_B, values="_", boundaries=(1.0, 1000.0), logarithmic=True),
+                       ParameterValues(key=KEY_V, values=["_", "_"], boundaries=(1.0, 100.0), logarithmic=True)]
+    perm = list(itertools.permutations(range(3)))[order]
+    islands = []
+    for isl in range(2):
+        ranks = perm if isl == 0 else perm[::-1]
+        f = [10.0 * (r + 1) + isl for r in ranks]
+        x = [[1.0 + j + isl, 0.5 * (j + 1), 0.25 * (j + 1), 1.0 + 0.125 * j] for j in range(3)]
+        islands.append(_RIsland(_RPop(f, x)))
+    obj = ArchipelagoDataTree.__new__(ArchipelagoDataTree)
+    obj._pygmo_archi = islands
+    obj.problem = prob
+    ds = obj.get_best_individuals(num_best_decisions=n_best)
+    problems = []
+    for isl in range(2):
+        pop = islands[isl].pop
+        rank = np.argsort(pop.f.ravel())[:n_best]
+        bd = np.asarray(ds["best_decision"].sel(island=isl))
+        bp = np.asarray(ds["best_parameters"].sel(island=isl))
+        bf = np.asarray(ds["best_fitness"].sel(island=isl))
+        if bd.shape[0] != n_best or not np.array_equal(bd, pop.x[rank]) or not np.array_equal(bf, pop.f.ravel()[rank]):
+            problems.append(f"island {isl}: best individuals are not the {n_best} fittest, in order")
+        want = np.array([prob.convert_to_parameters(row) for row in bd])
+        if bp.shape != want.shape or not np.allclose(bp, want, rtol=1e-12, atol=0):
+            problems.append(f"island {isl}: reported parameters are not the conversion of the reported decision vectors (got {bp.tolist()}, expected {want.tolist()})")
+    return problems
+
+
+def best_individuals():
+    """The reported best individuals: the fittest of each island in order, and for each the parameters that this very decision vector
+    denotes (10**x for logarithmic ones) - over every fitness ranking of three individuals and every requested count."""
+    o, n = vx.integer("ranking"), vx.integer("num_best_decisions")
+    vx.assume((o >= 0) & (o <= 5) & (n >= 1) & (n <= 3), "ranking among the 6 permutations, 1..3 individuals requested")
+    order, n_best = vx.concretize_int(o), vx.concretize_int(n)
+    problems = _report_best(order, n_best)
+    vx.prove(f"C10/report/best_individuals/ranking={order},n={n_best}", not problems, problems=str(problems)[:300])
+
+
 def replay(oid, kwargs, model, data):
     """Concrete re-run with real numpy."""
     from pyxel.calibration.fitting_datatree import ModelFittingDataTree
+
+    if data["fn"] == "best_individuals":
+        problems = _report_best(int(model.get("ranking", 0)), int(model.get("num_best_decisions", 1)))
+        return bool(problems), {"problems": problems}
 
     layout = [tuple(s) for s in kwargs["layout"]]
     g = lambda k, d=0.0: float(model.get(k, d))  # noqa: E731
